@@ -433,6 +433,7 @@ func checkFloors() []string {
 	need("stream:plain-vs-memory", run.Scale(60, 5000))
 	need("ref:memory-store", run.Scale(60, 5000))
 	need("init:doc", run.Scale(400, 40000))
+	need("put:entry-bytes-compared", run.Scale(800, 80000))
 	need("init:unparseable-but-loaded", run.Scale(2, 100))
 	need("init:symlinked-path", run.Scale(20, 2000))
 	need("store:disable-put", run.Scale(10, 1000))
